@@ -6,11 +6,13 @@ From Conductor Require Import Lib.Str Lib.Path Gen.Generated Model.Cwd Model.Arc
 Import ListNotations.
 Local Open Scope N_scope.
 
-Definition probe_of (ex isdir : path -> bool) (cwd : path) (raw : option user_path) : out_probe :=
+Definition probe_of (ex isdir : path -> bool) (cwd root : path) (name : str) (raw : option user_path) : out_probe :=
   match raw with
-  | None => {| o_given := false; o_exists := false; o_is_dir := false; o_parent_exists := false; o_parent_is_dir := false |}
+  | None => {| o_given := false; o_exists := false; o_is_dir := false; o_parent_exists := false; o_parent_is_dir := false;
+               o_gen_exists := ex (locate cwd (UAbs (output_path root ++ [name]))) |}
   | Some u => {| o_given := true; o_exists := ex (locate cwd u); o_is_dir := isdir (locate cwd u);
-                 o_parent_exists := ex (locate cwd (u_parent u)); o_parent_is_dir := isdir (locate cwd (u_parent u)) |}
+                 o_parent_exists := ex (locate cwd (u_parent u)); o_parent_is_dir := isdir (locate cwd (u_parent u));
+                 o_gen_exists := ex (locate cwd (u_child u name)) |}
   end.
 
 Definition choice_matches (c : out_choice) (d : out_decision) (root : path) (name : str) (raw : option user_path) : Prop :=
@@ -25,18 +27,19 @@ Definition choice_matches (c : out_choice) (d : out_decision) (root : path) (nam
 
 Lemma cwd_model_takes_the_decision : forall ex isdir cwd root name raw,
   choice_matches (Cwd.handle_output_path ex isdir cwd root name raw)
-                 (ArchiveOut.handle_output_path (probe_of ex isdir cwd raw)) root name raw.
+                 (ArchiveOut.handle_output_path (probe_of ex isdir cwd root name raw)) root name raw.
 Proof.
   intros ex isdir cwd root name raw. unfold Cwd.handle_output_path, ArchiveOut.handle_output_path, probe_of.
-  destruct raw as [u|]; cbn [o_given o_exists o_is_dir o_parent_exists o_parent_is_dir negb].
+  destruct raw as [u|]; cbn [o_given o_exists o_is_dir o_parent_exists o_parent_is_dir o_gen_exists negb].
   - destruct (ex (locate cwd u)).
-    + destruct (isdir (locate cwd u)); cbn; [exists u; split; reflexivity|exact I].
+    + destruct (isdir (locate cwd u)); [|exact I].
+      destruct (ex (locate cwd (u_child u name))); cbn; [exact I|exists u; split; reflexivity].
     + destruct (ex (locate cwd (u_parent u)) && isdir (locate cwd (u_parent u))); cbn; [reflexivity|exact I].
-  - cbn. split; reflexivity.
+  - destruct (ex (locate cwd (UAbs (output_path root ++ [name])))); cbn; [exact I|split; reflexivity].
 Qed.
 
-Lemma cwd_model_decision_is_the_sources : forall ex isdir cwd raw,
-  decision_code (ArchiveOut.handle_output_path (probe_of ex isdir cwd raw)) =
-  let p := probe_of ex isdir cwd raw in
-  gen_archive_output_decision (o_given p) (o_exists p) (o_is_dir p) (o_parent_exists p) (o_parent_is_dir p).
+Lemma cwd_model_decision_is_the_sources : forall ex isdir cwd root name raw,
+  decision_code (ArchiveOut.handle_output_path (probe_of ex isdir cwd root name raw)) =
+  let p := probe_of ex isdir cwd root name raw in
+  gen_archive_output_decision (o_given p) (o_exists p) (o_is_dir p) (o_parent_exists p) (o_parent_is_dir p) (o_gen_exists p).
 Proof. intros. apply archive_output_tie. Qed.
